@@ -262,10 +262,16 @@ def usedLA (g : TGrammar) (nt : Nonterm) : List Nat :=
 
 def unionNat (a b : List Nat) : List Nat := a ++ b.filter fun x => !a.contains x
 
+/-- The alternatives `entryPoints` actually scans: the loop over a `Choice` is `ret = ret && entryPoints(c)`,
+so nothing after the first alternative that is not "compatible" (here: an empty one) is visited.
+`full = true` scans all of them (used for the witness of the propagation certificate). -/
+def Nonterm.scanned (full : Bool) (nt : Nonterm) : List Alt :=
+  if full then nt.alts else nt.alts.takeWhile fun a => !a.rhs.isEmpty
+
 /-- one round of the set equations of step 1 -/
-def flagsStep (g : TGrammar) (req : List (List Nat)) (cur : List (List Nat)) : List (List Nat) :=
+def flagsStep (g : TGrammar) (full : Bool) (req : List (List Nat)) (cur : List (List Nat)) : List (List Nat) :=
   (g.nts.zip (req.zip cur)).map fun (nt, r, c) =>
-    nt.alts.foldl (fun acc a =>
+    (nt.scanned full).foldl (fun acc a =>
       match a.entry with
       | none => acc
       | some (m, args) =>
@@ -273,16 +279,22 @@ def flagsStep (g : TGrammar) (req : List (List Nat)) (cur : List (List Nat)) : L
         let explicitLA := (args.filter fun x => g.isLA x.param).map (·.param)
         unionNat acc (sub.filter fun p => !explicitLA.contains p)) (unionNat r c)
 
-def flagsIter (g : TGrammar) (req : List (List Nat)) : Nat → List (List Nat) → List (List Nat)
+def flagsIter (g : TGrammar) (full : Bool) (req : List (List Nat)) : Nat → List (List Nat) → List (List Nat)
   | 0, cur => cur
   | fuel + 1, cur =>
-    let nxt := flagsStep g req cur
-    if nxt.map List.length == cur.map List.length then cur else flagsIter g req fuel nxt
+    let nxt := flagsStep g full req cur
+    if nxt.map List.length == cur.map List.length then cur else flagsIter g full req fuel nxt
 
-/-- the lookahead flags each nonterminal can accept (least solution of the equations) -/
+/-- the lookahead flags each nonterminal can accept (least solution of the equations of step 1) -/
 def laFlags (g : TGrammar) : List (List Nat) :=
   let req := g.nts.map (usedLA g)
-  flagsIter g req (g.nts.length * g.params.length + 2) req
+  flagsIter g false req (g.nts.length * g.params.length + 2) req
+
+/-- the same closure over ALL alternatives: where a flag can flow to a user through first symbols; the
+witness handed to the propagation certificate -/
+def laFlowFlags (g : TGrammar) : List (List Nat) :=
+  let req := g.nts.map (usedLA g)
+  flagsIter g true req (g.nts.length * g.params.length + 2) req
 
 /-- `BitSet.Slice(reuse)` writes its result over the start of the shared buffer -/
 def writeBuf (buf l : List Nat) : List Nat := l ++ buf.drop l.length
@@ -303,7 +315,7 @@ of step 1), cut to its own length. -/
 def requiredAliased (g : TGrammar) : List (List Nat) :=
   let req := requiredFlags g
   let buf := req.foldl writeBuf (List.replicate g.params.length 0)
-  let buf := g.nts.foldl (fun buf nt => nt.alts.foldl (fun buf a =>
+  let buf := g.nts.foldl (fun buf nt => (nt.scanned false).foldl (fun buf a =>
     match a.entry with
     | none => buf
     | some (_, args) =>
@@ -679,7 +691,7 @@ def compile (src : TGrammar) (fuel : Nat) : Status × Option (List Inst × Gramm
     match propagate m with
     | (.ok, m') =>
       (match instantiate m' fuel with
-       | some r => (.ok, some r, propCertB m (laFlags m) m')
+       | some r => (.ok, some r, propCertB m (laFlowFlags m) m')
        | none => (.fatal, none, false))
     | (st, _) => (st, none, false)
 
